@@ -146,3 +146,14 @@ Definition opt_id_eqb (a b : option N) : bool :=
 (** [opt.unwrap()] / [opt.expect(..)]: panics on [None] *)
 Definition expect_some {A} (o : option A) : trap A :=
   match o with Some a => Val a | None => Trap end.
+
+(** [return Err(e)] from anywhere in the body (also through a macro such as
+    transaction_format_err!): the rest of the function is not run - in the result monad the same
+    as [Err(e)?] *)
+Definition early_err (tag : string) : trap (result unit) := Val (ErrR tag).
+
+(** [v.get(i)] : [None] when out of range *)
+Definition vec_nth {A} (v : list A) (i : N) : option A := nth_error v (N.to_nat i).
+
+(** [v.contains(&x)] on a vector of integers *)
+Definition vec_contains (v : list N) (x : N) : bool := existsb (N.eqb x) v.
